@@ -26,6 +26,8 @@ pub enum Content {
 	/// valid UTF-8. It is still a discovered ignore file, contributes no patterns, and must not keep the other
 	/// ignore files of its directory from taking effect.
 	Unloadable(u8),
+	/// a symbolic link (relative or absolute, by the flag) to a regular file with these lines kept outside the tree
+	Symlink(Vec<String>, bool),
 }
 
 #[derive(Clone, Debug, Serialize, Deserialize)]
@@ -128,6 +130,25 @@ fn materialise(c: &C14Case, reverse: bool) -> Tree {
 				Content::Lines(l) => std::fs::write(&p, l.join("\n") + "\n").unwrap(),
 				Content::Empty => std::fs::write(&p, b"").unwrap(),
 				Content::IsDir => std::fs::create_dir_all(&p).unwrap(),
+				Content::Symlink(l, relative) => {
+					// the target lives next to the origin, outside the walked tree
+					let tdir = p.ancestors().find(|a| a.file_name().map_or(false, |n| n == "o")).and_then(|o| o.parent()).map(|r| r.join("link-targets")).unwrap();
+					std::fs::create_dir_all(&tdir).unwrap();
+					let name: String = p.strip_prefix(tdir.parent().unwrap()).unwrap().to_string_lossy().replace('/', "_");
+					let target = tdir.join(name);
+					std::fs::write(&target, l.join("\n") + "\n").unwrap();
+					let link_to = if *relative {
+						let depth = p.parent().unwrap().strip_prefix(tdir.parent().unwrap()).unwrap().components().count();
+						let mut rel = PathBuf::new();
+						for _ in 0..depth {
+							rel.push("..");
+						}
+						rel.join("link-targets").join(target.file_name().unwrap())
+					} else {
+						target.clone()
+					};
+					std::os::unix::fs::symlink(link_to, &p).unwrap();
+				}
 				Content::Unloadable(k) => {
 					if k % 2 == 0 {
 						std::fs::write(&p, b"notes[\n").unwrap();
@@ -206,7 +227,8 @@ fn read_first_spec_matches(p: &Path, f: &IgSpec) -> bool {
 }
 
 fn is_nonempty_file(p: &Path) -> bool {
-	std::fs::symlink_metadata(p).map_or(false, |m| m.is_file() && m.len() > 0)
+	// an ignore file may be a symbolic link to a regular file
+	std::fs::metadata(p).map_or(false, |m| m.is_file() && m.len() > 0)
 }
 
 fn read_lines(p: &Path) -> Vec<crate::gitmodel::Line> {
@@ -414,7 +436,7 @@ fn strategy() -> BoxedStrategy<C14Case> {
 				1 => Just("te*".to_string()),
 				2 => al.positive_pattern(),
 			];
-			let content = prop_oneof![16 => proptest::collection::vec(dpat.clone(), 1..4).prop_map(Content::Lines), 2 => Just(Content::Empty), 2 => Just(Content::IsDir), 1 => (0u8..2).prop_map(Content::Unloadable)];
+			let content = prop_oneof![16 => proptest::collection::vec(dpat.clone(), 1..4).prop_map(Content::Lines), 2 => Just(Content::Empty), 2 => Just(Content::IsDir), 1 => (0u8..2).prop_map(Content::Unloadable), 2 => (proptest::collection::vec(dpat.clone(), 1..4), any::<bool>()).prop_map(|(l, rel)| Content::Symlink(l, rel))];
 			let ig = (proptest::collection::vec(al.dir(), 0..3), 0u8..3, content).prop_map(|(dir, kind, content)| IgSpec { dir, kind, content });
 			(
 				proptest::collection::vec(dirpath, 0..6),
@@ -439,13 +461,13 @@ fn strategy() -> BoxedStrategy<C14Case> {
 }
 
 pub fn check(e: &Engine) {
-	e.assume("trees live on tmpfs (/dev/shm) so directory listing order follows creation order and can be flipped; symlinks, nested VCS metadata directories and .git/config core.excludesFile are not generated");
+	e.assume("trees live on tmpfs (/dev/shm) so directory listing order follows creation order and can be flipped; symlinked directories, nested VCS metadata directories and .git/config core.excludesFile are not generated (symlinked ignore files are)");
 	e.assume("a directory is pruned when the nearest-first evaluation (independent evaluator) of the ignore files in its strict ancestors, the explicit ignores, the origin-level VCS files and the origin's VCS metadata names yields Ignore");
 	e.explore(
 		"discovery",
 		LegOpts::det(
 			e.tier.pick(3_000, 60_000),
-			"generated trees (depth <=3, names from a 3-name alphabet often containing test/tests), 1-6 ignore files (.ignore/.gitignore/.hgignore; non-empty, empty, a directory of that name, or a file that cannot be loaded: invalid glob / not UTF-8) with directory-oriented patterns incl. negations, origin-level VCS files, VCS metadata dirs with decoys, explicit watch lists and explicit ignore files (separate files, and a third of the time also ignore files of the tree itself passed as explicit ones); result compared as a set with an independent walker; same tree created in the opposite order must give the same set; non-trivial = pruned subtree containing an ignore file, prefix-sibling pair, or explicit watch list",
+			"generated trees (depth <=3, names from a 3-name alphabet often containing test/tests), 1-6 ignore files (.ignore/.gitignore/.hgignore; non-empty, empty, a directory of that name, a file that cannot be loaded: invalid glob / not UTF-8, or a symbolic link to a regular file outside the tree) with directory-oriented patterns incl. negations, origin-level VCS files, VCS metadata dirs with decoys, explicit watch lists and explicit ignore files (separate files, and a third of the time also ignore files of the tree itself passed as explicit ones); result compared as a set with an independent walker; same tree created in the opposite order must give the same set; non-trivial = pruned subtree containing an ignore file, prefix-sibling pair, or explicit watch list",
 		),
 		&strategy,
 		&run,
